@@ -33,8 +33,6 @@ Proof.
 Qed.
 
 (* ---------------------------------------------------------------- reachable states *)
-Definition is_exn (o : outc) : bool := match o with OExnIndex => true | _ => false end.
-
 (* legitimate environment: the handshake completes once (before any 1-RTT traffic); a RETIRE delivery outcome
    refers to a frame that is really outstanding (premise discharged by C08: callbacks at most once per frame) *)
 Definition legit (s : st) (o : op) : Prop :=
@@ -44,17 +42,19 @@ Definition legit (s : st) (o : op) : Prop :=
   | _ => True
   end.
 
-(* reach c l s x: s is reachable for role c and peer limit l; x = an IndexError escaped on the way *)
-Inductive reach (c : bool) (l : Z) : st -> bool -> Prop :=
-| reach_init : reach c l (handshake_complete (init c) l) false
-| reach_step s x o : reach c l s x -> legit s o ->
-    reach c l (snd (step s o)) (x || is_exn (fst (step s o))).
+(* reach c l s: s is reachable for role c and peer limit l *)
+Inductive reach (c : bool) (l : Z) : st -> Prop :=
+| reach_init : reach c l (handshake_complete (init c) l)
+| reach_step s o : reach c l s -> legit s o -> reach c l (snd (step s o)).
 
-Lemma reach_run c l ops : Forall (fun o => match o with Handshake _ | RetireDelivery _ _ => False | _ => True end) ops ->
-  forall s x, reach c l s x -> exists x', reach c l (run s ops) x'.
+Definition plain (o : op) : bool :=
+  match o with Handshake _ | RetireDelivery _ _ => false | _ => true end.
+
+Lemma reach_run c l ops : forallb plain ops = true -> forall s, reach c l s -> reach c l (run s ops).
 Proof.
-  induction 1 as [|o ops Ho _ IH]; intros s x R; cbn [run]; [eauto|].
-  eapply IH. eapply reach_step; [exact R|]. destruct o; cbn; tauto.
+  induction ops as [|o ops IH]; cbn [forallb run]; intros H s R; [exact R|].
+  apply andb_prop in H. destruct H as [Ho H]. apply IH; [assumption|].
+  apply reach_step; [exact R|]. destruct o; cbn in *; try tauto; discriminate.
 Qed.
 
 (* ---------------------------------------------------------------- locally issued IDs *)
@@ -135,21 +135,61 @@ Proof.
 Qed.
 
 (* host-side invariant *)
+Lemma del_host_In q hs h : In h (del_host q hs) -> In h hs.
+Proof.
+  induction hs as [|a t IH]; cbn [del_host]; [tauto|]. destruct (h_seq a =? q); cbn [In]; tauto.
+Qed.
+
+Lemma replenish_loop_hosts fuel : forall hs next target h,
+  In h (fst (replenish_loop fuel hs next target)) -> In h hs \/ (h_sent h = false /\ next <= h_seq h).
+Proof.
+  induction fuel as [|f IH]; intros hs next target h; cbn [replenish_loop]; [cbn; tauto|].
+  destruct (Zlen hs <? target); [|cbn; tauto]. intros H. apply IH in H. destruct H as [H|[H1 H2]]; [|right; split; [assumption|lia]].
+  apply in_app_or in H. destruct H as [H|[H|[]]]; [tauto|]. subst h. cbn. right. split; [reflexivity|lia].
+Qed.
+
+Lemma replenish_loop_next fuel : forall hs next target, next <= snd (replenish_loop fuel hs next target).
+Proof.
+  induction fuel as [|f IH]; intros hs next target; cbn [replenish_loop]; [cbn; lia|].
+  destruct (Zlen hs <? target); [|cbn; lia]. specialize (IH (hs ++ [mkH next false]) (next + 1) target). lia.
+Qed.
+
+Lemma fold_max_ge l : forall m, m <= fold_left Z.max l m /\ (forall x, In x l -> x <= fold_left Z.max l m).
+Proof.
+  induction l as [|a l IH]; intros m; cbn [fold_left]; [split; [lia|intros x []]|].
+  destruct (IH (Z.max m a)) as [A B]. split; [lia|]. intros x [E|H]; [subst; lia|auto].
+Qed.
+Lemma fold_max_lt l n : forall m, m < n -> Forall (fun x => x < n) l -> fold_left Z.max l m < n.
+Proof.
+  induction l as [|a l IH]; intros m Hm F; cbn [fold_left]; [assumption|]. inversion F; subst. apply IH; [lia|assumption].
+Qed.
+
+(* host-side invariant *)
 Record HInv (l : Z) (s : st) : Prop := {
   hi_limit : rlimit s = l;
   hi_count : Zlen (hosts s) = Z.min REPLENISH_CAP l;
-  hi_good : hgood (hosts s) (hseq s)
+  hi_good : hgood (hosts s) (hseq s);
+  hi_mark : hsent s < hseq s;
+  hi_issued : forall h, In h (hosts s) -> h_sent h = true \/ h_seq h <= hsent s -> In (h_seq h) (issued s);
+  hi_retired : forall q, In q (retiredev s) -> In q (issued s)
 }.
 
 Lemma replenish_HInv l s : 1 <= l -> rlimit s = l -> Zlen (hosts s) <= Z.min REPLENISH_CAP l ->
-  hgood (hosts s) (hseq s) -> HInv l (replenish s).
+  hgood (hosts s) (hseq s) -> hsent s < hseq s ->
+  (forall h, In h (hosts s) -> h_sent h = true \/ h_seq h <= hsent s -> In (h_seq h) (issued s)) ->
+  (forall q, In q (retiredev s) -> In q (issued s)) ->
+  HInv l (replenish s).
 Proof.
-  intros Hl Hr Hc Hg. unfold replenish. rewrite Hr.
+  intros Hl Hr Hc Hg Hm Hi Hrt. unfold replenish. rewrite Hr.
   pose proof (replenish_loop_len (Z.to_nat (Z.min REPLENISH_CAP l)) (hosts s) (hseq s) (Z.min REPLENISH_CAP l)) as L.
   pose proof (replenish_loop_good (Z.to_nat (Z.min REPLENISH_CAP l)) (hosts s) (hseq s) (Z.min REPLENISH_CAP l) Hg) as G.
+  pose proof (replenish_loop_hosts (Z.to_nat (Z.min REPLENISH_CAP l)) (hosts s) (hseq s) (Z.min REPLENISH_CAP l)) as Hh.
+  pose proof (replenish_loop_next (Z.to_nat (Z.min REPLENISH_CAP l)) (hosts s) (hseq s) (Z.min REPLENISH_CAP l)) as Hn.
   destruct (replenish_loop _ _ _ _) as [hs next]. cbn [fst snd] in *.
-  constructor; cbn; [assumption| |assumption].
-  apply L; [assumption|]. pose proof (zlen_nonneg (hosts s)). unfold REPLENISH_CAP in *. lia.
+  constructor; cbn; try assumption.
+  - apply L; [assumption|]. pose proof (zlen_nonneg (hosts s)). unfold REPLENISH_CAP in *. lia.
+  - lia.
+  - intros h Hin Hs. destruct (Hh h Hin) as [H|[H1 H2]]; [now apply Hi|]. destruct Hs as [Hs|Hs]; [congruence|lia].
 Qed.
 
 Lemma hgood_map_sent f hs next : (forall h, h_seq (f h) = h_seq h) -> hgood hs next -> hgood (map f hs) next.
@@ -161,68 +201,109 @@ Qed.
 
 Lemma init_HInv c l : 1 <= l -> HInv l (handshake_complete (init c) l).
 Proof.
-  intros Hl. unfold handshake_complete. apply replenish_HInv; cbn; try assumption; try reflexivity.
-  - change (Zlen [mkH 0 true]) with 1. unfold REPLENISH_CAP. lia.
-  - unfold hgood, hseqs; cbn. split; [constructor; [tauto|constructor]|repeat constructor; lia].
+  intros Hl. unfold handshake_complete. apply replenish_HInv; cbn; try assumption; try reflexivity; try lia; try tauto.
+  all: try (change (Zlen [mkH 0 true]) with 1; unfold REPLENISH_CAP; lia).
+  all: try (unfold hgood, hseqs; cbn; split; [constructor; [tauto|constructor]|repeat constructor; lia]).
+  all: try (intros h [E|[]] _; subst h; cbn; now left).
 Qed.
 
-Lemma change_cid_hosts s : hosts (change_cid s) = hosts s /\ hseq (change_cid s) = hseq s /\ rlimit (change_cid s) = rlimit s.
-Proof. unfold change_cid. destruct (avail s); cbn; auto. Qed.
+Lemma change_cid_host s : hosts (change_cid s) = hosts s /\ hseq (change_cid s) = hseq s /\ rlimit (change_cid s) = rlimit s
+  /\ hsent (change_cid s) = hsent s /\ issued (change_cid s) = issued s /\ retiredev (change_cid s) = retiredev s.
+Proof. unfold change_cid. destruct (avail s); cbn; repeat split. Qed.
+
+Lemma HInv_same l s s' : HInv l s -> hosts s' = hosts s -> hseq s' = hseq s -> rlimit s' = rlimit s ->
+  hsent s' = hsent s -> issued s' = issued s -> retiredev s' = retiredev s -> HInv l s'.
+Proof. intros [A B C D E F] H1 H2 H3 H4 H5 H6. constructor; rewrite ?H1, ?H2, ?H3, ?H4, ?H5, ?H6; assumption. Qed.
+
+Lemma never_sent_false q hs mark h : never_sent q hs mark = false -> In h hs -> h_seq h = q ->
+  h_sent h = true \/ h_seq h <= mark.
+Proof.
+  unfold never_sent. intros N Hin E. destruct (h_sent h) eqn:Es; [now left|right].
+  destruct (h_seq h >? mark) eqn:Em; [|lia]. exfalso.
+  assert (X : existsb (fun h0 => (h_seq h0 =? q) && negb (h_sent h0) && (h_seq h0 >? mark)) hs = true).
+  { apply existsb_exists. exists h. split; [assumption|]. rewrite Es, Em. cbn. rewrite andb_true_r. lia. }
+  congruence.
+Qed.
 
 Lemma step_HInv l s o : 1 <= l -> HInv l s -> legit s o -> HInv l (snd (step s o)).
 Proof.
-  intros Hl [H1 H2 H3] Lg. destruct o; cbn [step legit] in *; try tauto.
-  - (* RecvPacket *) unfold recv_packet. destruct (closed s); cbn [snd]; [constructor; assumption|].
-    destruct (is_client s && negb (has_host d (hosts s))); cbn; constructor; assumption.
+  intros Hl I Lg. pose proof I as [H1 H2 H3 H4 H5 H6]. destruct o; cbn [step legit] in *; try tauto.
+  - (* RecvPacket *) unfold recv_packet. destruct (closed s); cbn [snd]; [assumption|].
+    destruct (is_client s && negb (has_host d (hosts s))); cbn [snd]; eapply HInv_same; try exact I; reflexivity.
   - (* RecvNewCid *) unfold recv_newcid.
-    repeat match goal with |- context [match ?x with _ => _ end] => destruct x end; cbn; constructor; assumption.
+    repeat match goal with |- context [match ?x with _ => _ end] => destruct x end; cbn [snd];
+      try assumption; eapply HInv_same; try exact I; reflexivity.
   - (* RecvRetire *) unfold recv_retire.
-    destruct (closed s); [cbn; constructor; assumption|]. destruct (pkt s); [|cbn; constructor; assumption].
-    destruct (q >=? hseq s); [cbn; constructor; assumption|].
-    destruct (has_host q (hosts s) && (q =? z)); [cbn; constructor; assumption|]. cbn [snd].
+    destruct (closed s); [assumption|]. destruct (pkt s); [|assumption].
+    destruct ((q >=? hseq s) || never_sent q (hosts s) (hsent s)) eqn:E0; [cbn [snd]; eapply HInv_same; try exact I; reflexivity|].
+    destruct (has_host q (hosts s) && (q =? z)); [cbn [snd]; eapply HInv_same; try exact I; reflexivity|]. cbn [snd].
+    apply orb_false_elim in E0. destruct E0 as [E0 E1].
     apply replenish_HInv; cbn; try assumption.
     + destruct (has_host q (hosts s)) eqn:E; [rewrite zlen_del_host by assumption; lia|rewrite del_host_absent by assumption; lia].
     + now apply hgood_del.
-  - (* PacketDone *) unfold packet_done. destruct (closed s); [cbn; constructor; assumption|].
-    destruct (pkt s); [|cbn; constructor; assumption].
-    destruct (negb (is_client s) && negb (z =? hcur s)); cbn [snd]; [|cbn; constructor; assumption].
-    destruct (change_cid_hosts s) as [A [B C]]. constructor; cbn; rewrite ?A, ?B, ?C; assumption.
-  - (* LocalChange *) destruct (change_cid_hosts s) as [A [B C]]. constructor; cbn; rewrite ?A, ?B, ?C; assumption.
-  - (* Send *) destruct (closed s); cbn [snd]; [constructor; assumption|]. unfold send. cbn. constructor; cbn; [assumption| |].
+    + intros h Hin. apply H5. now apply (del_host_In q).
+    + intros q0 Hq. destruct (has_host q (hosts s)) eqn:E; [|now apply H6].
+      apply in_app_or in Hq. destruct Hq as [Hq|[Hq|[]]]; [now apply H6|]. subst q0.
+      apply has_host_In in E. unfold hseqs in E. apply in_map_iff in E. destruct E as [h [Eh Hin]].
+      rewrite <- Eh. apply H5; [assumption|]. eapply never_sent_false; eassumption.
+  - (* PacketDone *) unfold packet_done. destruct (closed s); [cbn [snd]; eapply HInv_same; try exact I; reflexivity|].
+    destruct (pkt s); [|cbn [snd]; eapply HInv_same; try exact I; reflexivity].
+    destruct (negb (is_client s) && negb (z =? hcur s)); cbn [snd]; [|eapply HInv_same; try exact I; reflexivity].
+    destruct (change_cid_host s) as [A [B [C [D [E F]]]]]. eapply HInv_same; try exact I; cbn; assumption.
+  - (* LocalChange *) destruct (change_cid_host s) as [A [B [C [D [E F]]]]]. eapply HInv_same; try exact I; cbn; assumption.
+  - (* Send *) destruct (closed s); cbn [snd]; [assumption|]. unfold send. cbn [snd].
+    set (news := map h_seq (filter (fun h => negb (h_sent h)) (hosts s))).
+    assert (Fn : Forall (fun x => x < hseq s) news).
+    { apply Forall_forall. intros x Hx. unfold news in Hx. apply in_map_iff in Hx. destruct Hx as [h [E Hh]].
+      apply filter_In in Hh. destruct Hh as [Hh _]. destruct H3 as [_ B]. rewrite Forall_forall in B. apply B.
+      unfold hseqs. subst x. now apply in_map. }
+    constructor; cbn; try assumption.
     + now rewrite zlen_map.
     + apply hgood_map_sent; [reflexivity|assumption].
-  - (* RetireDelivery *) unfold retire_delivery. destruct acked; cbn; constructor; assumption.
-  - (* NewCidDelivery *) unfold newcid_delivery. destruct acked; cbn [snd]; [constructor; assumption|].
-    constructor; cbn; [assumption|now rewrite zlen_map|].
-    apply hgood_map_sent; [|assumption]. intros h. destruct (h_seq h =? q) eqn:E; cbn; lia.
+    + now apply fold_max_lt.
+    + intros h Hin _. apply in_map_iff in Hin. destruct Hin as [h0 [E Hin]]. subst h. cbn.
+      apply in_or_app. destruct (h_sent h0) eqn:Es; [left; apply H5; auto|right].
+      unfold news. apply in_map. apply filter_In. split; [assumption|now rewrite Es].
+    + intros q Hq. apply in_or_app. left. now apply H6.
+  - (* RetireDelivery *) unfold retire_delivery. destruct acked; cbn [snd]; eapply HInv_same; try exact I; reflexivity.
+  - (* NewCidDelivery *) unfold newcid_delivery. destruct acked; cbn [snd]; [assumption|].
+    constructor; cbn; try assumption; [now rewrite zlen_map| |].
+    + apply hgood_map_sent; [|assumption]. intros h. destruct (h_seq h =? q) eqn:E; cbn; lia.
+    + intros h Hin Hs. apply in_map_iff in Hin. destruct Hin as [h0 [E Hin]].
+      destruct (h_seq h0 =? q) eqn:Eq.
+      * subst h. cbn in *. destruct Hs as [Hs|Hs]; [discriminate|]. replace q with (h_seq h0) by lia.
+        apply H5; [assumption|]. right. lia.
+      * subst h. now apply H5.
 Qed.
 
-Lemma reach_HInv c l s x : 1 <= l -> reach c l s x -> HInv l s.
+Lemma reach_HInv c l s : 1 <= l -> reach c l s -> HInv l s.
 Proof. intros Hl R. induction R; [now apply init_HInv|now apply step_HInv]. Qed.
 
 (* ---------------------------------------------------------------- peer-issued IDs *)
-Definition pcore (x : bool) (cur : Z) (avail seen : list Z) (rpt : Z) (pend outs ackd : list Z) : Prop :=
-  (x = false -> rpt <= cur) /\
+Definition pcore (cl : option Z) (cur : Z) (avail seen : list Z) (rpt : Z) (pend outs ackd : list Z) : Prop :=
+  (cl = None -> rpt <= cur) /\
   Forall (fun q => rpt <= q) avail /\
   (forall q, In q seen -> q = cur \/ In q avail \/ In q pend \/ In q outs \/ In q ackd).
 
-Record PInv (s : st) (x : bool) : Prop := {
-  pi_core : pcore x (cur s) (avail s) (seen s) (rpt s) (pend s) (outs s) (ackd s);
-  pi_bound : closed s = None -> 1 + Zlen (avail s) <= LOCAL_ACTIVE_CID_LIMIT
+Record PInv (s : st) : Prop := {
+  pi_core : pcore (closed s) (cur s) (avail s) (seen s) (rpt s) (pend s) (outs s) (ackd s);
+  pi_bound : closed s = None -> 1 + Zlen (avail s) <= LOCAL_ACTIVE_CID_LIMIT;
+  pi_recvd : forall q, In q (recvd s) -> In q (seen s)
 }.
 
 Section NewCid.
-  Variables (x : bool) (cur0 : Z) (avail0 seen0 : list Z) (rpt0 : Z) (pend0 outs0 ackd0 : list Z) (q r : Z).
+  Variables (cl0 : option Z) (cur0 : Z) (avail0 seen0 : list Z) (rpt0 : Z) (pend0 outs0 ackd0 : list Z) (q r : Z).
   Local Notation rpt' := (Z.max r rpt0).
   Local Notation change := (cur0 <? rpt').
   Local Notation retire0 := (filter (fun c => c <? rpt') avail0).
-  Local Notation retire := (if change then cur0 :: retire0 else retire0).
   Local Notation avail1 := (filter (fun c => c >=? rpt') avail0).
   Local Notation fresh := ((q >=? rpt') && negb (memz q seen0)).
+  Local Notation late := ((q <? rpt') && negb (memz q seen0)).
+  Local Notation retire := ((if change then cur0 :: retire0 else retire0) ++ (if late then [q] else [])).
   Local Notation avail2 := (if fresh then avail1 ++ [q] else avail1).
-  Local Notation seen2 := (if fresh then seen0 ++ [q] else seen0).
+  Local Notation seen2 := (if memz q seen0 then seen0 else seen0 ++ [q]).
   Local Notation pend' := (pend0 ++ retire).
-  Hypothesis P : pcore x cur0 avail0 seen0 rpt0 pend0 outs0 ackd0.
+  Hypothesis P : pcore cl0 cur0 avail0 seen0 rpt0 pend0 outs0 ackd0.
 
   Lemma nc_avail2 : Forall (fun c => rpt' <= c) avail2.
   Proof.
@@ -232,6 +313,11 @@ Section NewCid.
     repeat constructor. lia.
   Qed.
 
+  Lemma nc_q_seen2 : In q seen2.
+  Proof.
+    destruct (memz q seen0) eqn:E; [now apply memz_In|]. apply in_or_app. right. now left.
+  Qed.
+
   Lemma nc_acct c : In c seen2 ->
     (c = cur0 /\ change = false) \/ In c avail2 \/ In c pend' \/ In c outs0 \/ In c ackd0.
   Proof.
@@ -239,20 +325,23 @@ Section NewCid.
     assert (Hold : In c seen0 -> (c = cur0 /\ change = false) \/ In c avail2 \/ In c pend' \/ In c outs0 \/ In c ackd0).
     { intros H0. destruct (A c H0) as [E|[H|[H|[H|H]]]]; try tauto.
       - destruct change eqn:Ech; [|tauto]. right; right; left.
-        apply in_or_app. right. left. congruence.
+        apply in_or_app. right. apply in_or_app. left. left. congruence.
       - destruct (c >=? rpt') eqn:Ec.
         + right; left. assert (In c avail1) by (apply filter_In; split; [assumption|lia]).
           destruct fresh; [apply in_or_app; now left|assumption].
-        + right; right; left. apply in_or_app. right.
+        + right; right; left. apply in_or_app. right. apply in_or_app. left.
           assert (In c retire0) by (apply filter_In; split; [assumption|lia]).
           destruct change; [now right|assumption].
       - right; right; left. apply in_or_app. now left. }
-    destruct fresh eqn:F; [|now apply Hold].
+    destruct (memz q seen0) eqn:M; [now apply Hold|].
     apply in_app_or in Hc. destruct Hc as [H0|[E|[]]]; [now apply Hold|]. subst c.
-    right; left. apply in_or_app. right. now left.
+    destruct (q >=? rpt') eqn:Eq.
+    - right; left. cbn [andb negb]. apply in_or_app. right. now left.
+    - right; right; left. replace (q <? rpt') with true by lia. cbn [andb negb].
+      apply in_or_app. right. apply in_or_app. right. now left.
   Qed.
 
-  Lemma nc_nochange : change = false -> pcore x cur0 avail2 seen2 rpt' pend' outs0 ackd0.
+  Lemma nc_nochange cl : change = false -> pcore cl cur0 avail2 seen2 rpt' pend' outs0 ackd0.
   Proof.
     intros Ech. split; [|split].
     - intros _. lia.
@@ -260,7 +349,7 @@ Section NewCid.
     - intros c Hc. destruct (nc_acct c Hc) as [[E _]|H]; tauto.
   Qed.
 
-  Lemma nc_change a t : change = true -> avail2 = a :: t -> pcore x a t seen2 rpt' pend' outs0 ackd0.
+  Lemma nc_change cl a t : change = true -> avail2 = a :: t -> pcore cl a t seen2 rpt' pend' outs0 ackd0.
   Proof.
     intros Ech Ea. pose proof nc_avail2 as F. rewrite Ea in F. inversion F; subst. split; [|split].
     - intros _. assumption.
@@ -269,77 +358,67 @@ Section NewCid.
       rewrite Ea in H. destruct H; [left; congruence|tauto].
   Qed.
 
-  Lemma nc_exn : change = true -> avail2 = [] -> pcore (x || true) cur0 [] seen2 rpt' pend' outs0 ackd0.
+  Lemma nc_stranded e : change = true -> avail2 = [] -> pcore (Some e) cur0 [] seen2 rpt' pend' outs0 ackd0.
   Proof.
     intros Ech Ea. split; [|split].
-    - rewrite orb_true_r. discriminate.
+    - discriminate.
     - constructor.
     - intros c Hc. destruct (nc_acct c Hc) as [[_ E]|[H|H]]; [congruence| |tauto]. rewrite Ea in H. destruct H.
   Qed.
-
-  (* exactly when _consume_peer_cid pops an empty list *)
-  Lemma nc_exn_iff : (change = true /\ avail2 = []) <->
-    (cur0 < rpt' /\ (forall c, In c avail0 -> c < rpt') /\ (q < rpt' \/ In q seen0)).
-  Proof.
-    split.
-    - intros [Ech Ea]. split; [lia|]. split.
-      + intros c Hc. destruct (c >=? rpt') eqn:E; [|lia]. exfalso.
-        assert (H : In c (filter (fun c0 => c0 >=? rpt') avail0)) by (apply filter_In; split; assumption).
-        destruct ((q >=? rpt') && negb (memz q seen0)).
-        * destruct (filter _ avail0); [destruct H|discriminate].
-        * rewrite Ea in H. destruct H.
-      + destruct (q >=? rpt') eqn:E1; [|lia]. destruct (memz q seen0) eqn:E2; [right; now apply memz_In|].
-        cbn in Ea. destruct (filter _ avail0); discriminate.
-    - intros [Hc [Ha Hq]]. split; [lia|].
-      assert (E : filter (fun c => c >=? rpt') avail0 = []).
-      { destruct (filter (fun c => c >=? rpt') avail0) as [|c t] eqn:E; [reflexivity|exfalso].
-        assert (H : In c (filter (fun c => c >=? rpt') avail0)) by (rewrite E; now left).
-        apply filter_In in H. destruct H as [H1 H2]. apply Ha in H1. lia. }
-      rewrite E. destruct Hq as [Hq|Hq]; [replace (q >=? rpt') with false by lia; reflexivity|].
-      apply memz_In in Hq. rewrite Hq. rewrite andb_false_r. reflexivity.
-  Qed.
 End NewCid.
 
-Lemma PInv_closed s x h p e : PInv s x -> PInv (set_ctx s h p (Some e)) x.
-Proof. intros [C B]. constructor; cbn; [exact C|discriminate]. Qed.
-Lemma PInv_ctx s x h p : PInv s x -> PInv (set_ctx s h p (closed s)) x.
-Proof. intros [C B]. constructor; cbn; [exact C|exact B]. Qed.
-Lemma PInv_ctx_none s x h p : closed s = None -> PInv s x -> PInv (set_ctx s h p None) x.
-Proof. intros E [C B]. constructor; cbn; [exact C|auto]. Qed.
+Lemma pcore_close cl e cur avail seen rpt pend outs ackd :
+  pcore cl cur avail seen rpt pend outs ackd -> pcore (Some e) cur avail seen rpt pend outs ackd.
+Proof. intros [A [B C]]. split; [discriminate|tauto]. Qed.
 
-Lemma pcore_weaken_x x cur avail seen rpt pend outs ackd :
-  pcore x cur avail seen rpt pend outs ackd -> pcore (x || true) cur avail seen rpt pend outs ackd.
-Proof. intros [A [B C]]. split; [rewrite orb_true_r; discriminate|tauto]. Qed.
+Lemma PInv_closed s h p e : PInv s -> PInv (set_ctx s h p (Some e)).
+Proof. intros [C B R]. constructor; cbn; [eapply pcore_close; exact C|discriminate|exact R]. Qed.
+Lemma PInv_ctx s h p : PInv s -> PInv (set_ctx s h p (closed s)).
+Proof. intros [C B R]. constructor; cbn; assumption. Qed.
+Lemma PInv_ctx_none s h p : closed s = None -> PInv s -> PInv (set_ctx s h p None).
+Proof. intros E [C B R]. constructor; cbn; [now rewrite <- E|auto|exact R]. Qed.
 
 Lemma limit_pos : 1 <= LOCAL_ACTIVE_CID_LIMIT.
 Proof. unfold LOCAL_ACTIVE_CID_LIMIT. lia. Qed.
 
-Lemma newcid_PInv s x q r n : PInv s x ->
-  PInv (snd (recv_newcid s q r n)) (x || is_exn (fst (recv_newcid s q r n))).
+Lemma newcid_PInv s q r n : PInv s -> PInv (snd (recv_newcid s q r n)).
 Proof.
-  intros P. pose proof (pi_core _ _ P) as C. unfold recv_newcid.
-  destruct (closed s) eqn:Ec; [cbn; rewrite orb_false_r; exact P|].
-  destruct (pkt s); [|cbn; rewrite orb_false_r; exact P].
-  destruct ((n =? 0) || (n >? CONNECTION_ID_MAX_SIZE)); [cbn; rewrite orb_false_r; now apply PInv_closed|].
-  destruct (r >? q); [cbn; rewrite orb_false_r; now apply PInv_closed|].
+  intros P. pose proof (pi_core _ P) as C. pose proof (pi_recvd _ P) as Rc. unfold recv_newcid.
+  destruct (closed s) eqn:Ec; [exact P|].
+  destruct (pkt s); [|exact P].
+  destruct ((n =? 0) || (n >? CONNECTION_ID_MAX_SIZE)); [now apply PInv_closed|].
+  destruct (r >? q); [now apply PInv_closed|].
+  assert (RS : forall c, In c (recvd s ++ [q]) -> In c (if memz q (seen s) then seen s else seen s ++ [q])).
+  { intros c Hc. apply in_app_or in Hc. destruct Hc as [Hc|[E|[]]].
+    - apply Rc in Hc. destruct (memz q (seen s)); [assumption|apply in_or_app; now left].
+    - subst c. apply nc_q_seen2. }
   destruct (cur s <? Z.max r (rpt s)) eqn:Ech.
   - match goal with |- context [match ?a2 with [] => _ | _ => _ end] => destruct a2 as [|a t] eqn:Ea end.
-    + cbn [fst snd is_exn]. constructor; cbn -[Z.add Z.mul Z.min Zlen].
-      * assert (H := nc_exn x _ _ _ _ _ _ _ q r C Ech Ea). rewrite Ech in H. exact H.
-      * intros _. change (Zlen (@nil Z)) with 0. pose proof limit_pos. lia.
-    + assert (H := nc_change x _ _ _ _ _ _ _ q r C a t Ech Ea). rewrite Ech in H.
-      destruct (1 + Zlen t >? LOCAL_ACTIVE_CID_LIMIT) eqn:E1; [|destruct (Zlen _ >? _) eqn:E2];
-        cbn [fst snd is_exn]; rewrite ?orb_false_r; constructor; cbn -[Z.add Z.mul Z.min Zlen]; try exact H; try discriminate.
-      intros _. lia.
-  - assert (H := nc_nochange x _ _ _ _ _ _ _ q r C Ech). rewrite Ech in H.
-    match goal with |- context [1 + Zlen ?a2 >? _] => destruct (1 + Zlen a2 >? LOCAL_ACTIVE_CID_LIMIT) eqn:E1 end;
-      [|destruct (Zlen _ >? _) eqn:E2]; cbn [fst snd is_exn]; rewrite ?orb_false_r; constructor; cbn -[Z.add Z.mul Z.min Zlen]; try exact H; try discriminate.
-    intros _. lia.
+    + cbn [snd]. constructor; cbn -[Z.add Z.mul Z.min Zlen].
+      * assert (H := nc_stranded _ _ _ _ _ _ _ _ q r C E_PROTOCOL_VIOLATION Ech Ea). rewrite Ech in H. exact H.
+      * discriminate.
+      * exact RS.
+    + destruct (1 + Zlen t >? LOCAL_ACTIVE_CID_LIMIT) eqn:E1; [|destruct (Zlen _ >? _) eqn:E2];
+        cbn [snd]; constructor; cbn -[Z.add Z.mul Z.min Zlen]; try exact RS; try discriminate.
+      * assert (H := nc_change _ _ _ _ _ _ _ _ q r C (Some E_CONNECTION_ID_LIMIT_ERROR) a t Ech Ea). rewrite Ech in H. exact H.
+      * assert (H := nc_change _ _ _ _ _ _ _ _ q r C (Some E_CONNECTION_ID_LIMIT_ERROR) a t Ech Ea). rewrite Ech in H. exact H.
+      * assert (H := nc_change _ _ _ _ _ _ _ _ q r C (closed s) a t Ech Ea). rewrite Ech in H. exact H.
+      * intros _. lia.
+  - match goal with |- context [1 + Zlen ?a2 >? _] => destruct (1 + Zlen a2 >? LOCAL_ACTIVE_CID_LIMIT) eqn:E1 end;
+      [|destruct (Zlen _ >? _) eqn:E2]; cbn [snd]; constructor; cbn -[Z.add Z.mul Z.min Zlen]; try exact RS; try discriminate.
+    + assert (H := nc_nochange _ _ _ _ _ _ _ _ q r C (Some E_CONNECTION_ID_LIMIT_ERROR) Ech). rewrite Ech in H. exact H.
+    + assert (H := nc_nochange _ _ _ _ _ _ _ _ q r C (Some E_CONNECTION_ID_LIMIT_ERROR) Ech). rewrite Ech in H. exact H.
+    + assert (H := nc_nochange _ _ _ _ _ _ _ _ q r C (closed s) Ech). rewrite Ech in H. exact H.
+    + intros _. lia.
 Qed.
 
-Lemma change_cid_PInv s x : PInv s x -> PInv (change_cid s) x.
+Lemma change_cid_closed s : closed (change_cid s) = closed s.
+Proof. unfold change_cid. destruct (avail s); reflexivity. Qed.
+
+Lemma change_cid_PInv s : PInv s -> PInv (change_cid s).
 Proof.
-  intros [[A [B C]] D]. unfold change_cid. destruct (avail s) as [|a t] eqn:Ea; [constructor; [rewrite Ea; repeat split; assumption|rewrite Ea; exact D]|].
+  intros [[A [B C]] D R]. unfold change_cid. destruct (avail s) as [|a t] eqn:Ea.
+  { constructor; [rewrite Ea; repeat split; assumption|rewrite Ea; exact D|exact R]. }
   inversion B; subst. constructor; cbn -[Z.add Zlen].
   - split; [intros _; assumption|split; [assumption|]].
     intros c Hc. destruct (C c Hc) as [E|[[E|H]|[H|H]]]; try tauto.
@@ -347,127 +426,102 @@ Proof.
     + left. congruence.
     + right; right; left. apply in_or_app. now left.
   - intros E. specialize (D E). rewrite zlen_cons in D. lia.
+  - exact R.
 Qed.
 
-Lemma step_PInv s x o : PInv s x -> legit s o -> PInv (snd (step s o)) (x || is_exn (fst (step s o))).
+Lemma step_PInv s o : PInv s -> legit s o -> PInv (snd (step s o)).
 Proof.
   intros P Lg. destruct o; cbn [step legit] in *; try tauto.
-  - (* RecvPacket *) unfold recv_packet. destruct (closed s) eqn:Ec; [cbn; rewrite orb_false_r; exact P|].
-    destruct (is_client s && negb (has_host d (hosts s))); cbn [fst snd is_exn]; rewrite orb_false_r; now apply PInv_ctx_none.
+  - (* RecvPacket *) unfold recv_packet. destruct (closed s) eqn:Ec; [exact P|].
+    destruct (is_client s && negb (has_host d (hosts s))); cbn [snd]; now apply PInv_ctx_none.
   - now apply newcid_PInv.
   - (* RecvRetire *) unfold recv_retire.
-    destruct (closed s) eqn:Ec; [cbn; rewrite orb_false_r; exact P|]. destruct (pkt s); [|cbn; rewrite orb_false_r; exact P].
-    destruct (q >=? hseq s); [cbn; rewrite orb_false_r; now apply PInv_closed|].
-    destruct (has_host q (hosts s) && (q =? z)); [cbn; rewrite orb_false_r; now apply PInv_closed|].
-    cbn [fst snd is_exn]. rewrite orb_false_r. destruct P as [C B]. unfold replenish.
-    destruct (replenish_loop _ _ _ _). constructor; cbn; assumption.
+    destruct (closed s) eqn:Ec; [exact P|]. destruct (pkt s); [|exact P].
+    destruct (_ || _); [now apply PInv_closed|].
+    destruct (has_host q (hosts s) && (q =? z)); [now apply PInv_closed|].
+    cbn [snd]. destruct P as [C B R]. unfold replenish.
+    destruct (replenish_loop _ _ _ _). constructor; cbn; try assumption; try (now rewrite Ec in C).
   - (* PacketDone *) unfold packet_done. destruct (closed s) eqn:Ec.
-    + cbn [fst snd is_exn]. rewrite orb_false_r. rewrite <- Ec. now apply PInv_ctx.
+    + cbn [snd]. rewrite <- Ec. now apply PInv_ctx.
     + destruct (pkt s).
-      * destruct (negb (is_client s) && negb (z =? hcur s)); cbn [fst snd is_exn]; rewrite orb_false_r.
-        -- apply PInv_ctx_none; [unfold change_cid; destruct (avail s); cbn; assumption|now apply change_cid_PInv].
+      * destruct (negb (is_client s) && negb (z =? hcur s)); cbn [snd].
+        -- apply PInv_ctx_none; [now rewrite change_cid_closed|now apply change_cid_PInv].
         -- now apply PInv_ctx_none.
-      * cbn [fst snd is_exn]. rewrite orb_false_r. rewrite <- Ec. now apply PInv_ctx.
-  - (* LocalChange *) cbn. rewrite orb_false_r. now apply change_cid_PInv.
-  - (* Send *) destruct (closed s) eqn:Ec; cbn [fst snd is_exn]; rewrite orb_false_r; [exact P|].
-    destruct P as [[A [B C]] D]. unfold send. constructor; cbn; [|assumption].
-    split; [assumption|split; [assumption|]]. intros c Hc. destruct (C c Hc) as [E|[H|[H|[H|H]]]]; try tauto.
+      * cbn [snd]. rewrite <- Ec. now apply PInv_ctx.
+  - (* LocalChange *) cbn. now apply change_cid_PInv.
+  - (* Send *) destruct (closed s) eqn:Ec; cbn [snd]; [exact P|].
+    destruct P as [[A [B C]] D R]. unfold send. constructor; cbn; [|assumption|assumption].
+    split; [first [assumption|now rewrite Ec in A|intros _; apply A; assumption]|split; [assumption|]]. intros c Hc. destruct (C c Hc) as [E|[H|[H|[H|H]]]]; try tauto.
     + right; right; right; left. apply in_or_app. now right.
     + right; right; right; left. apply in_or_app. now left.
-  - (* RetireDelivery *) cbn. rewrite orb_false_r. destruct P as [[A [B C]] D]. unfold retire_delivery.
+  - (* RetireDelivery *) cbn. destruct P as [[A [B C]] D R]. unfold retire_delivery.
     destruct acked; constructor; cbn; try assumption; (split; [assumption|split; [assumption|]]); intros c Hc;
       destruct (C c Hc) as [E|[H|[H|[H|H]]]]; try tauto.
     + destruct (In_remove1 q c _ H) as [E|H']; [|tauto]. subst c. right; right; right; right. apply in_or_app. right. now left.
     + right; right; right; right. apply in_or_app. now left.
     + right; right; left. apply in_or_app. now left.
     + destruct (In_remove1 q c _ H) as [E|H']; [|tauto]. subst c. right; right; left. apply in_or_app. right. now left.
-  - (* NewCidDelivery *) cbn. rewrite orb_false_r. unfold newcid_delivery. destruct acked; [exact P|].
-    destruct P as [C B]. constructor; cbn; assumption.
+  - (* NewCidDelivery *) cbn. unfold newcid_delivery. destruct acked; [exact P|].
+    destruct P as [C B R]. constructor; cbn; assumption.
 Qed.
 
-Lemma init_PInv c l : PInv (handshake_complete (init c) l) false.
+Lemma init_PInv c l : PInv (handshake_complete (init c) l).
 Proof.
   unfold handshake_complete, replenish. destruct (replenish_loop _ _ _ _). constructor; cbn.
   - split; [intros _; lia|split; [constructor|]]. intros q [E|[]]. now left.
   - intros _. change (Zlen (@nil Z)) with 0. pose proof limit_pos. lia.
+  - tauto.
 Qed.
 
-Lemma reach_PInv c l s x : reach c l s x -> PInv s x.
+Lemma reach_PInv c l s : reach c l s -> PInv s.
 Proof. intros R. induction R; [apply init_PInv|now apply step_PInv]. Qed.
 
 (* ---------------------------------------------------------------- consequences *)
-Fixpoint runx (s : st) (x : bool) (ops : list op) : st * bool :=
-  match ops with [] => (s, x) | o :: t => runx (snd (step s o)) (x || is_exn (fst (step s o))) t end.
-
-Definition plain (o : op) : bool :=
-  match o with Handshake _ | RetireDelivery _ _ => false | _ => true end.
-
-Lemma reach_runx c l ops : forallb plain ops = true ->
-  forall s x, reach c l s x -> reach c l (fst (runx s x ops)) (snd (runx s x ops)).
-Proof.
-  induction ops as [|o ops IH]; cbn [forallb runx]; intros H s x R; [exact R|].
-  apply andb_prop in H. destruct H as [Ho H]. apply IH; [assumption|].
-  apply reach_step; [exact R|]. destruct o; cbn in *; try tauto; discriminate.
-Qed.
-
 (* dcid_not_retired *)
-Lemma dcid_not_retired_l c l s : reach c l s false ->
+Lemma dcid_not_retired_l c l s : reach c l s -> closed s = None ->
   rpt s <= cur s /\ Forall (fun q => rpt s <= q) (avail s) /\ rpt s <= fst (fst (fst (send s))).
 Proof.
-  intros R. destruct (reach_PInv _ _ _ _ R) as [[A [B _]] _]. cbn. auto.
+  intros R Ec. destruct (reach_PInv _ _ _ R) as [[A [B _]] _ _]. specialize (A Ec). cbn. auto.
 Qed.
 
-Lemma only_newcid_raises s o : is_exn (fst (step s o)) = true -> exists q r n, o = RecvNewCid q r n.
+(* the retire_prior_to of an accepted frame is honoured at once *)
+Lemma newcid_ok_dcid c l s q r n : reach c l s -> fst (recv_newcid s q r n) = OOk ->
+  let s' := snd (recv_newcid s q r n) in r <= rpt s' /\ rpt s' <= cur s' /\ closed s' = None.
 Proof.
-  destruct o; cbn [step]; try (cbn; discriminate); try eauto.
-  - unfold recv_packet. destruct (closed s); [cbn; discriminate|]. destruct (_ && _); cbn; discriminate.
-  - unfold recv_retire. destruct (closed s); [cbn; discriminate|]. destruct (pkt s); [|cbn; discriminate].
-    destruct (_ >=? _); [cbn; discriminate|]. destruct (_ && _); cbn; discriminate.
-  - unfold packet_done. destruct (closed s); [cbn; discriminate|]. destruct (pkt s); [|cbn; discriminate].
-    destruct (_ && _); cbn; discriminate.
-  - destruct (closed s); cbn; discriminate.
+  intros R Hok. assert (R' : reach c l (snd (step s (RecvNewCid q r n)))) by (apply reach_step; [assumption|exact I]).
+  cbn [step] in R'. cbn zeta.
+  assert (Hc : closed (snd (recv_newcid s q r n)) = None /\ r <= rpt (snd (recv_newcid s q r n))).
+  { revert Hok. unfold recv_newcid. destruct (closed s) eqn:Ec; [cbn; discriminate|]. destruct (pkt s); [|cbn; discriminate].
+    destruct (_ || _); [cbn; discriminate|]. destruct (r >? q); [cbn; discriminate|].
+    destruct (cur s <? Z.max r (rpt s)).
+    - match goal with |- context [match ?a2 with [] => _ | _ => _ end] => destruct a2 as [|a t] end; [cbn; discriminate|].
+      destruct (1 + Zlen _ >? _); [cbn; discriminate|]. destruct (Zlen _ >? _); [cbn; discriminate|].
+      intros _. cbn [snd closed rpt set_peer]. split; [assumption|lia].
+    - destruct (1 + Zlen _ >? _); [cbn; discriminate|]. destruct (Zlen _ >? _); [cbn; discriminate|].
+      intros _. cbn [snd closed rpt set_peer]. split; [assumption|lia]. }
+  destruct Hc as [Hc Hr]. destruct (dcid_not_retired_l _ _ _ R' Hc) as [A _]. auto.
 Qed.
 
-Lemma consume_empty_iff c l s q r n : reach c l s false ->
-  (fst (recv_newcid s q r n) = OExnIndex <->
-   (closed s = None /\ pkt s <> None /\ (n =? 0) || (n >? CONNECTION_ID_MAX_SIZE) = false /\ r <= q /\
-    cur s < r /\ (forall a, In a (avail s) -> a < r) /\ In q (seen s))).
+(* a frame that would leave no destination ID closes the connection instead of raising *)
+Lemma no_cid_left_closes s q r n d : closed s = None -> pkt s = Some d ->
+  (n =? 0) || (n >? CONNECTION_ID_MAX_SIZE) = false -> r <= q ->
+  cur s < r -> (forall a, In a (avail s) -> a < r) -> In q (seen s) ->
+  fst (recv_newcid s q r n) = OQErr E_PROTOCOL_VIOLATION /\
+  closed (snd (recv_newcid s q r n)) = Some E_PROTOCOL_VIOLATION.
 Proof.
-  intros R. destruct (reach_PInv _ _ _ _ R) as [[A [B _]] _]. specialize (A eq_refl).
-  pose proof (nc_exn_iff (cur s) (avail s) (seen s) (rpt s) q r) as I.
-  unfold recv_newcid.
-  destruct (closed s); [split; [cbn; discriminate|intros [H _]; discriminate]|].
-  destruct (pkt s); [|split; [cbn; discriminate|intros [_ [H _]]; congruence]].
-  destruct ((n =? 0) || (n >? CONNECTION_ID_MAX_SIZE)); [split; [cbn; discriminate|intros [_ [_ [H _]]]; discriminate]|].
-  destruct (r >? q) eqn:Erq; [split; [cbn; discriminate|intros [_ [_ [_ [H _]]]]; lia]|].
-  destruct (cur s <? Z.max r (rpt s)) eqn:Ech.
-  - match goal with |- context [match ?a2 with [] => _ | _ => _ end] => destruct a2 as [|a t] eqn:Ea end.
-    + split; [intros _|reflexivity]. destruct I as [I _]. destruct (I (conj eq_refl eq_refl)) as [H1 [H2 H3]].
-      assert (Z.max r (rpt s) = r) by lia. rewrite H in *.
-      repeat split; try congruence; try lia; try assumption. destruct H3; [lia|assumption].
-    + split.
-      * destruct (1 + Zlen _ >? _); [cbn; discriminate|destruct (Zlen _ >? _); cbn; discriminate].
-      * intros [_ [_ [_ [_ [H1 [H2 H3]]]]]]. exfalso. destruct I as [_ I].
-        assert (Z.max r (rpt s) = r) by lia. rewrite H in *.
-        destruct I as [_ I]; [repeat split; [lia|assumption|tauto]|]. congruence.
-  - split.
-    + destruct (1 + Zlen _ >? _); [cbn; discriminate|destruct (Zlen _ >? _); cbn; discriminate].
-    + intros [_ [_ [_ [_ [H1 _]]]]]. lia.
-Qed.
-
-(* the repeated sequence number of that frame is one that was already abandoned *)
-Lemma consume_empty_repeats_retired c l s q r n : reach c l s false ->
-  fst (recv_newcid s q r n) = OExnIndex -> In q (pend s) \/ In q (outs s) \/ In q (ackd s).
-Proof.
-  intros R H. pose proof (proj1 (consume_empty_iff c l s q r n R) H) as [_ [_ [_ [Hrq [Hc [Ha Hs]]]]]].
-  destruct (reach_PInv _ _ _ _ R) as [[_ [_ C]] _]. destruct (C q Hs) as [E|[E|E]]; [lia| |exact E].
-  apply Ha in E. lia.
+  intros Ec Ep En Hrq Hc Ha Hs. unfold recv_newcid. rewrite Ec, Ep, En. replace (r >? q) with false by lia.
+  replace (cur s <? Z.max r (rpt s)) with true by lia.
+  assert (E : filter (fun c => c >=? Z.max r (rpt s)) (avail s) = []).
+  { destruct (filter (fun c => c >=? Z.max r (rpt s)) (avail s)) as [|c t] eqn:E; [reflexivity|exfalso].
+    assert (H : In c (filter (fun c => c >=? Z.max r (rpt s)) (avail s))) by (rewrite E; now left).
+    apply filter_In in H. destruct H as [H1 H2]. apply Ha in H1. lia. }
+  rewrite E. apply memz_In in Hs. rewrite Hs. rewrite andb_false_r. cbn. auto.
 Qed.
 
 (* peer_ids_bounded *)
-Lemma peer_ids_bounded_l c l s x : reach c l s x -> closed s = None ->
+Lemma peer_ids_bounded_l c l s : reach c l s -> closed s = None ->
   1 + Zlen (avail s) <= LOCAL_ACTIVE_CID_LIMIT.
-Proof. intros R. exact (pi_bound _ _ (reach_PInv _ _ _ _ R)). Qed.
+Proof. intros R. exact (pi_bound _ (reach_PInv _ _ _ R)). Qed.
 
 Lemma newcid_ok_bounds s q r n : fst (recv_newcid s q r n) = OOk ->
   1 + Zlen (avail (snd (recv_newcid s q r n))) <= LOCAL_ACTIVE_CID_LIMIT /\
@@ -491,18 +545,17 @@ Proof.
   intros Ec. unfold recv_newcid. rewrite Ec. destruct (pkt s); [|now left].
   destruct (_ || _); [right; eexists; reflexivity|]. destruct (r >? q); [right; eexists; reflexivity|].
   destruct (cur s <? Z.max r (rpt s)).
-  - match goal with |- context [match ?a2 with [] => _ | _ => _ end] => destruct a2 as [|a t] end.
-    + cbn -[Z.add]. change (Zlen (@nil Z)) with 0. pose proof limit_pos. lia.
-    + destruct (1 + Zlen t >? _) eqn:E1; [right; eexists; reflexivity|]. destruct (Zlen _ >? _) eqn:E2; [right; eexists; reflexivity|].
-      cbn [snd avail set_peer]. lia.
+  - match goal with |- context [match ?a2 with [] => _ | _ => _ end] => destruct a2 as [|a t] end; [right; eexists; reflexivity|].
+    destruct (1 + Zlen t >? _) eqn:E1; [right; eexists; reflexivity|]. destruct (Zlen _ >? _) eqn:E2; [right; eexists; reflexivity|].
+    cbn [snd avail set_peer]. lia.
   - match goal with |- context [1 + Zlen ?a2 >? _] => destruct (1 + Zlen a2 >? LOCAL_ACTIVE_CID_LIMIT) eqn:E1 end; [right; eexists; reflexivity|].
     destruct (Zlen _ >? _) eqn:E2; [right; eexists; reflexivity|]. cbn [snd avail set_peer]. lia.
 Qed.
 
 (* issued_bounded / retired_replaced *)
-Lemma issued_bounded_l c l s x : 1 <= l -> reach c l s x ->
+Lemma issued_bounded_l c l s : 1 <= l -> reach c l s ->
   Zlen (hosts s) = Z.min REPLENISH_CAP l /\ Zlen (hosts s) <= l.
-Proof. intros Hl R. destruct (reach_HInv _ _ _ _ Hl R) as [_ H _]. lia. Qed.
+Proof. intros Hl R. pose proof (hi_count _ _ (reach_HInv _ _ _ Hl R)). lia. Qed.
 
 Lemma unsent_are_announced s h : closed s = None -> In h (hosts s) -> h_sent h = false ->
   In (h_seq h) (snd (fst (fst (send s)))) /\ Forall (fun h' => h_sent h' = true) (hosts (snd (send s))).
@@ -520,13 +573,14 @@ Proof.
   destruct H as [H|H]; [|right; lia]. apply in_app_or in H. destruct H as [H|[H|[]]]; [tauto|]. cbn in H. right. lia.
 Qed.
 
-Lemma retired_not_accepted c l s x q : 1 <= l -> reach c l s x ->
+Lemma retired_not_accepted c l s q : 1 <= l -> reach c l s ->
   fst (step s (RecvRetire q)) = OOk ->
   has_host q (hosts (snd (step s (RecvRetire q)))) = false.
 Proof.
-  intros Hl R. destruct (reach_HInv _ _ _ _ Hl R) as [_ _ G]. cbn [step]. unfold recv_retire.
+  intros Hl R. pose proof (hi_good _ _ (reach_HInv _ _ _ Hl R)) as G. cbn [step]. unfold recv_retire.
   destruct (closed s); [cbn; discriminate|]. destruct (pkt s); [|cbn; discriminate].
-  destruct (q >=? hseq s) eqn:E1; [cbn; discriminate|]. destruct (_ && _); [cbn; discriminate|]. intros _.
+  destruct ((q >=? hseq s) || _) eqn:E1; [cbn; discriminate|]. destruct (_ && _); [cbn; discriminate|]. intros _.
+  apply orb_false_elim in E1. destruct E1 as [E1 _].
   cbn [snd]. unfold replenish. cbn [hosts hseq rlimit set_host].
   destruct (hgood_del q _ _ G) as [_ NI].
   pose proof (replenish_loop_seqs (Z.to_nat (Z.min REPLENISH_CAP (rlimit s))) (del_host q (hosts s)) (hseq s)
@@ -543,10 +597,10 @@ Proof.
   rewrite E. rewrite andb_false_r. reflexivity.
 Qed.
 
-(* retirement_announced (for the sequence numbers the endpoint adopted) *)
-Lemma retirement_accounted c l s x q : reach c l s x -> In q (seen s) ->
+(* retirement_announced, for every sequence number received in a well-formed frame *)
+Lemma retirement_announced_l c l s q : reach c l s -> In q (recvd s) ->
   q = cur s \/ In q (avail s) \/ In q (pend s) \/ In q (outs s) \/ In q (ackd s).
-Proof. intros R. destruct (reach_PInv _ _ _ _ R) as [[_ [_ C]] _]. apply C. Qed.
+Proof. intros R H. destruct (reach_PInv _ _ _ R) as [[_ [_ C]] _ Rc]. apply C. now apply Rc. Qed.
 
 Lemma lost_requeued s q : In q (pend (retire_delivery s q false)).
 Proof. cbn. apply in_or_app. right. now left. Qed.
@@ -555,181 +609,42 @@ Lemma pending_all_written s : closed s = None ->
   snd (fst (send s)) = pend s /\ pend (snd (send s)) = [] /\ forall q, In q (pend s) -> In q (outs (snd (send s))).
 Proof. intros _. cbn. repeat split. intros q H. apply in_or_app. now right. Qed.
 
-(* ---------------------------------------------------------------- refutations (concrete witnesses) *)
+(* ConnectionIdRetired only after ConnectionIdIssued *)
+Lemma retired_after_issued_l c l s q : 1 <= l -> reach c l s -> In q (retiredev s) -> In q (issued s).
+Proof. intros Hl R. exact (hi_retired _ _ (reach_HInv _ _ _ Hl R) q). Qed.
+
+Lemma retire_never_sent_is_error s q d h : closed s = None -> pkt s = Some d ->
+  In h (hosts s) -> h_seq h = q -> h_sent h = false -> hsent s < q ->
+  fst (recv_retire s q) = OQErr E_PROTOCOL_VIOLATION /\ hosts (snd (recv_retire s q)) = hosts s.
+Proof.
+  intros Ec Ep Hin Eq Hs Hm. unfold recv_retire. rewrite Ec, Ep.
+  assert (N : never_sent q (hosts s) (hsent s) = true).
+  { unfold never_sent. apply existsb_exists. exists h. split; [assumption|]. rewrite Hs. cbn. lia. }
+  rewrite N, orb_true_r. cbn. auto.
+Qed.
+
+(* ---------------------------------------------------------------- the former counterexamples (docs/C18.md F1-F3) *)
 Definition start (c : bool) (l : Z) : st := handshake_complete (init c) l.
 
-(* F1: NEW_CONNECTION_ID repeating an already retired sequence number with a larger retire_prior_to *)
 Definition w_exn : list op :=
   [RecvPacket 0; RecvNewCid 2 0 8; RecvNewCid 1 0 8; PacketDone; LocalChange; LocalChange; Send;
    RecvPacket 0; RecvNewCid 2 2 8].
+Example former_f1 : closed (run (start true 8) w_exn) = Some E_PROTOCOL_VIOLATION.
+Proof. vm_compute. reflexivity. Qed.
 
-Lemma dcid_not_retired_refuted_l :
-  exists s x, reach true 8 s x /\ closed s = None /\ x = true /\
-    cur s < rpt s /\ fst (fst (fst (send s))) < rpt s /\ In (cur s) (pend s).
-Proof.
-  exists (fst (runx (start true 8) false w_exn)), (snd (runx (start true 8) false w_exn)). split.
-  - apply reach_runx; [reflexivity|constructor].
-  - vm_compute. repeat split; try reflexivity. tauto.
-Qed.
-
-(* F2: a NEW_CONNECTION_ID that arrives after a larger retire_prior_to was processed is neither stored nor retired *)
 Definition w_late : list op :=
-  [RecvPacket 0; RecvNewCid 2 2 8; PacketDone; Send; RecvPacket 0; RecvNewCid 1 0 8; PacketDone; Send].
+  [RecvPacket 0; RecvNewCid 2 2 8; PacketDone; Send; RecvPacket 0; RecvNewCid 1 0 8; PacketDone].
+Example former_f2 : let s := run (start true 8) w_late in closed s = None /\ cur s = 2 /\ pend s = [1] /\ outs s = [0].
+Proof. vm_compute. repeat split. Qed.
 
-Lemma retirement_announced_refuted_l :
-  exists s q, reach true 8 s false /\ closed s = None /\ In q (recvd s) /\ q < rpt s /\
-    q <> cur s /\ ~ In q (avail s) /\ ~ In q (pend s) /\ ~ In q (outs s) /\ ~ In q (ackd s).
+Definition w_unsent : list op := [Send; RecvPacket 0; RecvRetire 1; RecvRetire 8].
+Example former_f3 : let s := run (start false 8) w_unsent in
+  closed s = Some E_PROTOCOL_VIOLATION /\ retiredev s = [1] /\ In 1 (issued s).
+Proof. vm_compute. repeat split. tauto. Qed.
+
+Example reach_nontrivial : exists s, reach true 8 s /\ cur s = 2 /\ rpt s = 2 /\ pend s = [] /\ outs s = [0].
 Proof.
-  exists (fst (runx (start true 8) false w_late)), 1. split.
-  - change false with (snd (runx (start true 8) false w_late)) at 2. apply reach_runx; [reflexivity|constructor].
-  - vm_compute. repeat split; try reflexivity; try lia; try (intros H; decompose [or] H; discriminate || contradiction).
-Qed.
-
-(* F3: the peer retires a host ID whose NEW_CONNECTION_ID was never written: ConnectionIdRetired without
-   ConnectionIdIssued *)
-Definition w_unsent : list op := [Send; RecvPacket 0; RecvRetire 1; RecvRetire 8; PacketDone; Send].
-
-Lemma retired_event_without_issued_l :
-  exists s q, reach false 8 s false /\ closed s = None /\ In q (retiredev s) /\ ~ In q (issued s).
-Proof.
-  exists (fst (runx (start false 8) false w_unsent)), 8. split.
-  - change false with (snd (runx (start false 8) false w_unsent)) at 3. apply reach_runx; [reflexivity|constructor].
-  - vm_compute. repeat split; try reflexivity.
-    + right. now left.
-    + intros H; decompose [or] H; discriminate || contradiction.
-Qed.
-
-(* pending retirements are bounded only at the moment a NEW_CONNECTION_ID frame is accepted: lost frames are
-   re-queued without a check *)
-Example reach_nontrivial : exists s, reach true 8 s false /\ cur s = 2 /\ rpt s = 2 /\ pend s = [] /\ outs s = [0].
-Proof.
-  exists (fst (runx (start true 8) false [RecvPacket 0; RecvNewCid 2 2 8; PacketDone; Send])). split.
-  - change false with (snd (runx (start true 8) false [RecvPacket 0; RecvNewCid 2 2 8; PacketDone; Send])) at 2.
-    apply reach_runx; [reflexivity|constructor].
+  exists (run (start true 8) [RecvPacket 0; RecvNewCid 2 2 8; PacketDone; Send]). split.
+  - apply reach_run; [reflexivity|constructor].
   - vm_compute. repeat split.
-Qed.
-
-(* ---------------------------------------------------------------- a peer that repeats frames verbatim *)
-(* [processed s q r n]: the NEW_CONNECTION_ID(q, r, length n) frame gets past the validity checks in state s *)
-Definition processed (s : st) (q r n : Z) : bool :=
-  match closed s, pkt s with
-  | None, Some _ => negb ((n =? 0) || (n >? CONNECTION_ID_MAX_SIZE)) && negb (r >? q)
-  | _, _ => false
-  end.
-
-Definition hist_step (s : st) (o : op) (H : list (Z * Z)) : list (Z * Z) :=
-  match o with
-  | RecvNewCid q r n => if processed s q r n then (q, r) :: H else H
-  | _ => H
-  end.
-
-(* the peer never sends two NEW_CONNECTION_ID frames with the same sequence number but different retire_prior_to
-   (RFC 9000 19.15: retransmissions carry the same content) *)
-Definition verbatim (H : list (Z * Z)) (o : op) : Prop :=
-  match o with
-  | RecvNewCid q r _ => forall r0, In (q, r0) H -> r0 = r
-  | _ => True
-  end.
-
-Inductive reachH (c : bool) (l : Z) : st -> bool -> list (Z * Z) -> Prop :=
-| reachH_init : reachH c l (handshake_complete (init c) l) false []
-| reachH_step s x H o : reachH c l s x H -> legit s o -> verbatim H o ->
-    reachH c l (snd (step s o)) (x || is_exn (fst (step s o))) (hist_step s o H).
-
-Lemma reachH_reach c l s x H : reachH c l s x H -> reach c l s x.
-Proof. induction 1; [constructor|now apply reach_step]. Qed.
-
-Lemma change_cid_seen_rpt s : seen (change_cid s) = seen s /\ rpt (change_cid s) = rpt s.
-Proof. unfold change_cid. destruct (avail s); cbn; auto. Qed.
-
-Lemma step_other_seen_rpt s o : (forall q r n, o <> RecvNewCid q r n) ->
-  seen (snd (step s o)) = seen s /\ rpt (snd (step s o)) = rpt s.
-Proof.
-  intros Hn. destruct o; cbn [step].
-  - unfold handshake_complete, replenish. destruct (replenish_loop _ _ _ _). cbn. auto.
-  - unfold recv_packet. destruct (closed s); [cbn; auto|]. destruct (_ && _); cbn; auto.
-  - exfalso. eapply Hn. reflexivity.
-  - unfold recv_retire. destruct (closed s); [cbn; auto|]. destruct (pkt s); [|cbn; auto].
-    destruct (_ >=? _); [cbn; auto|]. destruct (_ && _); [cbn; auto|]. cbn [snd]. unfold replenish.
-    destruct (replenish_loop _ _ _ _). cbn. auto.
-  - unfold packet_done. destruct (closed s); [cbn; auto|]. destruct (pkt s); [|cbn; auto].
-    destruct (_ && _); cbn; [apply change_cid_seen_rpt|auto].
-  - cbn. apply change_cid_seen_rpt.
-  - destruct (closed s); cbn; auto.
-  - unfold retire_delivery. destruct acked; cbn; auto.
-  - unfold newcid_delivery. destruct acked; cbn; auto.
-Qed.
-
-Lemma newcid_seen_rpt s q r n :
-  let s' := snd (recv_newcid s q r n) in
-  (processed s q r n = false -> seen s' = seen s /\ rpt s' = rpt s) /\
-  (processed s q r n = true -> rpt s' = Z.max r (rpt s) /\ (forall a, In a (seen s') -> In a (seen s) \/ a = q)).
-Proof.
-  unfold processed, recv_newcid. cbn zeta.
-  destruct (closed s); [cbn; split; [auto|discriminate]|]. destruct (pkt s); [|cbn; split; [auto|discriminate]].
-  destruct ((n =? 0) || (n >? CONNECTION_ID_MAX_SIZE)); [cbn; split; [auto|discriminate]|].
-  destruct (r >? q); [cbn; split; [auto|discriminate]|]. split; [cbn; discriminate|]. intros _.
-  assert (S : forall a, In a (if (q >=? Z.max r (rpt s)) && negb (memz q (seen s)) then seen s ++ [q] else seen s) ->
-                        In a (seen s) \/ a = q).
-  { intros a. destruct (_ && _); [|tauto]. intros Ha. apply in_app_or in Ha. destruct Ha as [?|[?|[]]]; auto. }
-  destruct (cur s <? Z.max r (rpt s)).
-  - match goal with |- context [match ?a2 with [] => _ | _ => _ end] => destruct a2 as [|a t] end; [cbn; auto|].
-    destruct (1 + Zlen _ >? _); [cbn; auto|]. destruct (Zlen _ >? _); cbn; auto.
-  - destruct (1 + Zlen _ >? _); [cbn; auto|]. destruct (Zlen _ >? _); cbn; auto.
-Qed.
-
-Lemma reachH_inv c l s x H : reachH c l s x H ->
-  0 <= rpt s /\
-  (forall q r, In (q, r) H -> r <= rpt s) /\ (forall q, In q (seen s) -> q = 0 \/ exists r0, In (q, r0) H).
-Proof.
-  induction 1 as [|s x H o R [J0 [J1 J2]] Lg V].
-  - unfold handshake_complete, replenish. destruct (replenish_loop _ _ _ _). cbn. split; [lia|]. split; [tauto|]. intros q [E|[]]. now left.
-  - destruct o as [lim|d|q r n|q0| | | |q0 a0|q0 a0];
-      try (match goal with |- context [step s ?o] =>
-             destruct (step_other_seen_rpt s o) as [E1 E2]; [intros; discriminate|] end;
-           rewrite E1, E2; cbn [hist_step]; repeat split; assumption).
-    cbn [step hist_step]. pose proof (newcid_seen_rpt s q r n) as [N1 N2]. cbn zeta in N1, N2.
-    destruct (processed s q r n).
-    + destruct (N2 eq_refl) as [E2 S]. rewrite E2. split; [lia|]. split.
-      * intros q' r' [E|Hin]; [inversion E; subst; lia|]. specialize (J1 _ _ Hin). lia.
-      * intros a Ha. destruct (S a Ha) as [Hs|E].
-        -- destruct (J2 a Hs) as [?|[r0 ?]]; [now left|right; exists r0; now right].
-        -- subst a. right. exists r. now left.
-    + destruct (N1 eq_refl) as [E1 E2]. rewrite E1, E2. auto.
-Qed.
-
-(* a peer that repeats NEW_CONNECTION_ID frames verbatim can never make _consume_peer_cid pop an empty list *)
-Lemma verbatim_peer_no_exn c l s H : reachH c l s false H ->
-  forall o, legit s o -> verbatim H o -> is_exn (fst (step s o)) = false.
-Proof.
-  intros R o Lg V. destruct (is_exn (fst (step s o))) eqn:E; [exfalso|reflexivity].
-  destruct (only_newcid_raises _ _ E) as [q [r [n Eo]]]. subst o. cbn [step] in E. cbn [verbatim] in V.
-  pose proof (reachH_reach _ _ _ _ _ R) as R'.
-  assert (Ex : fst (recv_newcid s q r n) = OExnIndex) by (destruct (fst (recv_newcid s q r n)); cbn in E; congruence).
-  destruct (proj1 (consume_empty_iff c l s q r n R') Ex) as [_ [_ [_ [Hrq [Hc [_ Hs]]]]]].
-  destruct (reachH_inv _ _ _ _ _ R) as [J0 [J1 J2]]. destruct (dcid_not_retired_l _ _ _ R') as [A _].
-  destruct (J2 q Hs) as [E0|[r0 Hin]]; [lia|]. rewrite (V r0 Hin) in Hin. specialize (J1 _ _ Hin). lia.
-Qed.
-
-Lemma verbatim_reach_no_exn c l s x H : reachH c l s x H -> x = false.
-Proof.
-  induction 1 as [|s x H o R IH Lg V]; [reflexivity|]. subst x.
-  now rewrite (verbatim_peer_no_exn _ _ _ _ R o Lg V).
-Qed.
-
-Lemma dcid_not_retired_verbatim c l s x H : reachH c l s x H ->
-  rpt s <= cur s /\ Forall (fun q => rpt s <= q) (avail s) /\ rpt s <= fst (fst (fst (send s))).
-Proof.
-  intros R. pose proof (verbatim_reach_no_exn _ _ _ _ _ R). subst x.
-  apply (dcid_not_retired_l c l). now apply (reachH_reach _ _ _ _ H).
-Qed.
-
-Example reachH_nontrivial : exists s x H, reachH true 8 s x H /\ x = false /\ H = [(2, 2)] /\ cur s = 2.
-Proof.
-  eexists. eexists. eexists. split.
-  - eapply (reachH_step true 8 _ _ _ (RecvNewCid 2 2 8)).
-    + eapply (reachH_step true 8 _ _ _ (RecvPacket 0)); [constructor|exact I|exact I].
-    + exact I.
-    + cbn. tauto.
-  - vm_compute. repeat split; reflexivity.
 Qed.
